@@ -224,7 +224,7 @@ func suspectOps(n gen.NetSpec) string {
 		for _, l := range p.Prog {
 			op := strings.Fields(l)[0]
 			switch op {
-			case "addp", "multp", "divp":
+			case "addp", "multp", "divp", "ro2rri":
 				set[op] = true
 			default:
 				// the dynamically created two-phase arithmetic families (fixed point, fxp, linear quantizer)
@@ -235,6 +235,9 @@ func suspectOps(n gen.NetSpec) string {
 				}
 			}
 		}
+	}
+	if n.SharedDomain {
+		set["one-domain"] = true
 	}
 	var s []string
 	for k := range set {
@@ -302,6 +305,26 @@ func machines(seed int64, nRandom int) []gen.NetSpec {
 		n := gen.FanOut(k, 16, 1, []int{1, 0, 2}, false)
 		n.Family = fmt.Sprintf("fanout%d-delays", k)
 		ms = append(ms, n)
+	}
+	// several processors that are instances of ONE domain (one *procbuilder.Machine shared by their
+	// VMs), with and without ROM data read through ro2rri: whatever the simulator keeps on the
+	// machine object is then shared by the workers of one tick
+	for k := 2; k <= 4; k++ {
+		for v := 0; v < 3; v++ {
+			body := []string{"inc r0", "cpy r1 r0"}
+			var rom []uint64
+			if v > 0 {
+				body = []string{"rset r1 @rom0", "ro2rri r2 r1", "add r0 r2", "rset r1 @rom2", "ro2rri r2 r1", "add r0 r2"}
+				rom = []uint64{3, 200, 5, 77}
+			}
+			n := gen.Chain(k, []uint8{8, 16, 32}[k%3], body, 0, 0)
+			for i := range n.Procs {
+				n.Procs[i].Rom = rom
+			}
+			n.SharedDomain = v < 2
+			n.Family = fmt.Sprintf("chain%d-%s", k, []string{"one-domain", "one-domain-rom", "rom"}[v])
+			ms = append(ms, n)
+		}
 	}
 	rng := hx.RNG(seed, "c09machines")
 	for i := 0; i < nRandom; i++ {
@@ -446,6 +469,48 @@ func workload(run *evid.Run, tier string, race bool) {
 					with = append(with, cases[p].c.Net.Family)
 				}
 				run.Violation("digest-differs:concurrent:"+suspectOps(b.c.Net), map[string]any{"case": b.c, "text": b.c.Net.String(), "first_differing_tick": t, "running_with": with})
+			}
+		}
+	}
+	// ---------- phase 3b: cold machines ----------
+	// A freshly built machine simulated for the first time by several simulations at once (and by
+	// the several workers of each): whatever the simulator derives from the machine on first use
+	// is derived here under contention, not by the solo reference run as in the phases above.
+	bondmachine.SetVerifYield(yieldCB)
+	coldReps := 3
+	if tier == "thorough" {
+		coldReps = 12
+	}
+	for i := range cases {
+		b := &cases[i]
+		if !b.c.Net.SharedDomain && len(b.c.Net.Procs[0].Rom) == 0 && i%4 != 0 {
+			continue
+		}
+		for rep := 0; rep < coldReps; rep++ {
+			n := b.c.Net
+			fresh, err := n.Build()
+			if err != nil {
+				continue
+			}
+			yieldSeed.Store(uint64(run.Seed)*104729 + uint64(i)*31 + uint64(rep))
+			m := 2 + rep%3
+			got := make([]trace, m)
+			var wg sync.WaitGroup
+			for k := 0; k < m; k++ {
+				wg.Add(1)
+				go func(k int) {
+					defer wg.Done()
+					got[k] = runCase(fresh, b.c)
+				}(k)
+			}
+			wg.Wait()
+			for k := 0; k < m; k++ {
+				run.Eval(1)
+				run.Nontrivial(fmt.Sprintf("cold|m%d|r%d|k%d", i, rep, k))
+				if t, d := firstDiff(b.ref, got[k]); d {
+					run.Violation("digest-differs:cold-concurrent:"+suspectOps(b.c.Net), map[string]any{"case": b.c, "text": b.c.Net.String(), "first_differing_tick": t,
+						"simulations_at_once": m, "yield_seed": yieldSeed.Load()})
+				}
 			}
 		}
 	}
